@@ -388,6 +388,17 @@ func c16TrackLists(tier string) [][]trackSpec {
 						l = append(l, trackSpec{Kind: v})
 					}
 					out = append(out, l)
+					if v != "" && len(al) > 0 && def <= 0 && (vi == 0 || tier == "thorough") {
+						// the same list with the flag (documented for audio renditions) set on the video track as well: it says
+						// nothing about the renditions
+						lv := append([]trackSpec{}, l...)
+						for i := range lv {
+							if lv[i].video() {
+								lv[i].Default = true
+							}
+						}
+						out = append(out, lv)
+					}
 				}
 			}
 		}
